@@ -10,6 +10,7 @@ if r.returncode: sys.exit(2)
 try:
     if '--tests' in sys.argv:
         subprocess.run(['/verif/tools/baseline.py'])
+    sys.stdout.flush()
     for i in ids:
         t = time.time()
         p = subprocess.run(['/verif/check', i, '--tier', tier], capture_output=True, text=True)
